@@ -108,7 +108,14 @@ QUANTS = [None, None, None, ["*"], ["+"], ["?"], ["rep", 2], ["rep", 0], ["rep",
 
 def seq_strategy(depth, off, excluded):
     item = st.tuples(atom_strategy(depth, off, excluded), st.sampled_from(QUANTS)).map(list)
-    return st.lists(item, min_size=1, max_size=3).map(lambda xs: ["seq", xs])
+    # one sequence in five starts with a short run of plain literals (letters next to digits: "x41", "a0F"), the
+    # last of them possibly quantified
+    word = st.tuples(st.lists(st.sampled_from(list("x019AFab")), min_size=2, max_size=3),
+                     st.sampled_from([None, None, ["+"], ["rep", 2], ["?"]])).map(
+        lambda t: [[["lit", c], None] for c in t[0][:-1]] + [[["lit", t[0][-1]], t[1]]])
+    items = st.lists(item, min_size=1, max_size=3)
+    return st.one_of(items, items, items, items, st.tuples(word, st.lists(item, max_size=2)).map(lambda t: t[0] + t[1])
+                     ).map(lambda xs: ["seq", xs])
 
 
 def alt_strategy(depth, off, excluded):
